@@ -58,7 +58,7 @@ func (p *simPeer) respond(m wire.Message) []wire.Message {
 		p.getHeaders++
 		var from *verifkit.Block
 		for _, h := range msg.BlockLocatorHashes {
-			if b, ok := p.tree.ByHash[*h]; ok && p.onChain(b) {
+			if b := p.tree.Get(*h); b != nil && p.onChain(b) {
 				from = b
 				break
 			}
@@ -85,7 +85,7 @@ func (p *simPeer) respond(m wire.Message) []wire.Message {
 			case wire.InvTypeBlock:
 				p.gotGetData[iv.Hash]++
 				p.getDataSeq = append(p.getDataSeq, iv.Hash)
-				if b, ok := p.tree.ByHash[iv.Hash]; ok && b.Height > 0 {
+				if b := p.tree.Get(iv.Hash); b != nil && b.Height > 0 {
 					mb := b.Msg()
 					if p.corruptBody[b.Hash] {
 						mb = b.MsgWithTxs(append([]*wire.MsgTx{b.Txs[0]}, verifkit.Coinbase(9999, uint32(b.Height))))
@@ -177,9 +177,10 @@ type dsSim struct {
 	splitPct       int        // chance that a processor step is split at the pop
 	crashed        bool
 	between        func() // called between scheduling steps (adversary)
-	reqThisConn    map[bitcoin.Hash32]int // block hash -> chain-change epoch at which it was requested on this connection
-	chainEpoch     int
+	reqThisConn    map[bitcoin.Hash32]int  // block hash -> times requested on this connection
+	reqLive        map[bitcoin.Hash32]bool // requested on this connection and, at the end of the last step, still outstanding (in the request queue or in processing): its branch was not abandoned
 	wireRequests   int
+	rerequests     int // legitimate repeats on one connection (after the node abandoned the branch)
 	// the node was restarted on a stored chain that no longer contains the configured start block
 	// although the start block had been found before (known finding of C02, see DESIGN §5)
 	startOrphanedAtRestart bool
@@ -242,7 +243,6 @@ func (s *dsSim) hookLog() {
 // the switch say nothing about the new best chain (a revived branch has to be announced again).
 func (s *dsSim) chainChanged() {
 	s.handledHeaders = map[bitcoin.Hash32]bool{}
-	s.chainEpoch++
 }
 
 // connect re-issues what Run does when a connection is established.
@@ -250,6 +250,7 @@ func (s *dsSim) connect() {
 	s.e.node.state.MarkConnected()
 	s.peer.newConnection()
 	s.reqThisConn = map[bitcoin.Hash32]int{}
+	s.reqLive = map[bitcoin.Hash32]bool{}
 	s.inbox = nil
 	s.e.drain()
 	s.e.node.outgoing.Add(buildVersionMsg(s.e.cfg.UserAgent, int32(s.e.node.blocks.LastHeight())))
@@ -418,6 +419,23 @@ func (s *dsSim) afterStep(what string) {
 	for _, rq := range q.Requested {
 		if rq.HasBody {
 			sum += rq.Size
+		}
+	}
+	if len(s.reqLive) > 0 {
+		// a request that left the queue without being the block in processing is resolved: the
+		// block was processed or refused, or the node abandoned its branch (requests cleared)
+		inQueue := map[bitcoin.Hash32]bool{}
+		for _, rq := range q.Requested {
+			inQueue[rq.Hash] = true
+		}
+		if s.popped != nil {
+			hd := s.popped.GetHeader()
+			inQueue[*hd.BlockHash()] = true
+		}
+		for h := range s.reqLive {
+			if !inQueue[h] {
+				delete(s.reqLive, h)
+			}
 		}
 	}
 	if q.PendingSize != sum {
@@ -618,13 +636,18 @@ func (s *dsSim) checkCallbacks(handlers int) {
 	}
 }
 
-// judgeBlockRequests checks a getdata(block) message at the moment it goes on the wire (C13):
-// no block is requested twice on one connection unless the peer's best chain changed in between
-// (its branch was abandoned), and every requested block's parent was requested earlier on this
-// connection or is already held / being processed by the node (chain order).
+// judgeBlockRequests checks a getdata(block) message at the moment it goes on the wire (C13): a
+// block is not requested again on a connection while its earlier request is still outstanding
+// (the node did not abandon its branch in between) or while the node holds it, and every requested
+// block's parent was requested earlier on this connection or is already held / being processed by
+// the node (chain order).  Called right after the step that emitted the message; reqLive reflects
+// the end of that step for every earlier request.
 func (s *dsSim) judgeBlockRequests(gd *wire.MsgGetData) {
 	if s.reqThisConn == nil {
 		s.reqThisConn = map[bitcoin.Hash32]int{}
+	}
+	if s.reqLive == nil {
+		s.reqLive = map[bitcoin.Hash32]bool{}
 	}
 	for _, iv := range gd.InvList {
 		if iv.Type != wire.InvTypeBlock {
@@ -636,10 +659,17 @@ func (s *dsSim) judgeBlockRequests(gd *wire.MsgGetData) {
 			s.find("C13", "C13/wire/unknown-block-requested", "getdata for a hash the peer never announced")
 			continue
 		}
-		if ep, dup := s.reqThisConn[iv.Hash]; dup && ep == s.chainEpoch {
-			s.find("C13", "C13/wire/block-requested-twice", fmt.Sprintf("block %d (%s) requested twice on one connection although the peer's chain did not change in between", b.Height, iv.Hash.String()[:8]))
+		h := iv.Hash
+		if s.reqLive[h] {
+			s.find("C13", "C13/wire/block-requested-twice", fmt.Sprintf("block %d (%s) requested again on one connection while its earlier request was still outstanding (its branch was not abandoned in between)", b.Height, h.String()[:8]))
+		} else if s.e.node.blocks.Contains(&h) {
+			s.find("C13", "C13/wire/held-block-requested", fmt.Sprintf("block %d (%s) requested although the node holds it", b.Height, h.String()[:8]))
 		}
-		s.reqThisConn[iv.Hash] = s.chainEpoch
+		if s.reqThisConn[h] > 0 {
+			s.rerequests++
+		}
+		s.reqThisConn[h]++
+		s.reqLive[h] = true
 		if b.Parent != nil {
 			_, parentRequested := s.reqThisConn[b.Parent.Hash]
 			ph := b.Parent.Hash
